@@ -40,7 +40,7 @@ THEOREMS = [
     "NfcVerif.C18.exchange_no_stale_target",
     "NfcVerif.C18.activate_absorbs_communication_errors",
     "NfcVerif.C18.activate_gets_current_target",
-    "NfcVerif.C18.activate_typeerror_counterexample",
+    "NfcVerif.C18.activate_never_typeerror",
     "NfcVerif.C18.history_no_stale_target",
 ]
 
@@ -55,7 +55,7 @@ FOUND = [  # (token, valid as a Type A answer)
 ]
 FOUND += [  # platform variants of a Type A answer (var: bit 0 ISO-DEP, bit 1 NFCID1 not NXP), see conn_world.py
     ("F.4400.-.0.0.1", True), ("F.4400.-.0.0.2", True), ("F.4400.-.1.0.1", True), ("F.4403.-.0.0.3", True),
-    ("F.440c.-.0.0", True),          # SENS_RES byte 1 says Type 1, byte 0 does not: no RID response (open finding)
+    ("F.440c.-.0.0", True),          # SENS_RES byte 1 says Type 1, byte 0 does not: no RID response (fixes/C18/0004)
 ]
 # answers that matter as the response DATA of an activation command (AUTHENTICATE ack, GET_VERSION of a known
 # product / of an unknown one / the 00h of NTAG203, an ATS)
@@ -557,8 +557,8 @@ KINDS = [   # (name, rdwr targets, answers of the first round up to and includin
     ("tt4b", ["a", "b"], ["0", "0", "F.-.-.0.0"]),
     ("tt3", ["a", "f"], ["0", "0", "F.-.-.0.0"]),
     ("tt3-p2p", ["a", "f"], ["0", "0", "F.-.-.1.0"]),
-    ("tt1-norid", ["a", "b"], ["0", "F.440c.-.0.0"]),           # open finding (TypeError)
-    ("dep", ["d16", "b"], ["0", "F.-.-.0.0"]),                   # open finding (TypeError)
+    ("tt1-norid", ["a", "b"], ["0", "F.440c.-.0.0"]),           # repaired by fixes/C18/0004 (was TypeError)
+    ("dep", ["d16", "b"], ["0", "F.-.-.0.0"]),                   # repaired by fixes/C18/0003 (was TypeError)
     ("single-a", ["a7"], ["0", GOOD_A]),
 ]
 NXP_PATHS = [   # answers that walk nfc.tag.tt2_nxp.activate to each of its results (after the discovery)
